@@ -5,20 +5,29 @@
    shape, has_shape, load_spec / load_tr / load_toks, load_bytes, elem_prog / member_prog / class_prog /
    vec_prog, read_off: MpLoadModel.v — the generic serialization layer driving the read scopes for a
    target of a static shape (scalars, string, byte container, sequence containers, classes with string-named
-   members loaded in declaration order).  load_tr s v = (the scopes' answers as tokens, the loaded value)
+   members loaded in declaration order, std::map<K, V> with K = std::string or an integer type: SMap ks e,
+   std::array<T, N> / T[N]: SArr n e, std::vector<bool>: SVecBool).
+   has_shape (TObj kvs) (SMap ks e): the keys are of the key type ks and STRICTLY INCREASING (std::less<K>:
+   integers by value, strings bytewise as unsigned char, a proper prefix first) — a std::map value.
+   map_free s: the shape has no std::map.  keys_refl d: no NaN key in the document d (known finding M01 of C03).
+   load_tr s v = (the scopes' answers as tokens, the loaded value)
    at the association-list level; elem_prog / member_prog = the request program issued on that document;
    spec_reqs / spec_areqs: the association-list semantics of request programs (MpScopeSpec.v);
    run_obj_root / run_arr_root / load_obj / load_arr: the scope MODEL on the bytes (MpScopeModel.v).
    doc_ok (abs v): the keys of every class in v are pairwise different (key_eq; for string names: different
    byte strings) — "keys_ok".  bytes b: all < 256.  narrow / widen: the C++ float conversions (any).
-   NOT covered (see the end): std::map targets, vector<bool>, tuples. *)
+   NOT covered (see the end): MapLoadMode other than Clean, key conversions between text and number, tuples. *)
 From BS Require Import Base MpSpec MpModel MpLemmas MpReader MpTyped MpSaveModel MpSave
   MpScopeSpec MpScopeModel MpScopeLemmas MpScopeTyped MpScopeProofs MpScopeRefine MpLoadModel MpLoadProofs.
 Local Open Scope N_scope.
 
 (* ---- save then load ---- *)
 (* load = reference decoder, then load_spec: for every value tree of the target's shape, whatever the
-   policies, the bytes SaveObject produces load back to exactly that tree *)
+   policies, the bytes SaveObject produces load back to exactly that tree.  This covers classes (TObj with string
+   names against SClass), std::map<std::string, ...> and std::map<integer type, ...> (TObj with TStr / TInt keys
+   against SMap) at any depth.  Key conditions, all inside the hypotheses: has_shape gives keys of the map's key
+   type in strictly increasing order (hence pairwise different), wf_tv gives integer keys in the range of their
+   type, doc_ok (abs v) gives pairwise different member names in every class *)
 Theorem T_C01_mp_load_save : forall narrow widen o v s b,
   has_shape v s = true -> wf_tv v -> doc_ok (abs v) = true -> save v = Some b ->
   load_bytes narrow widen o s b = LOk v.
@@ -44,44 +53,102 @@ Print Assumptions T_C01_mp_load_save_spec.
 (* the association-list SPEC evaluates the program issued for an element of shape s on the document value
    v to exactly the tokens load_tr consumes (error-free loads; an element is consumed) ... *)
 Theorem T_C01_mp_elem_program : forall narrow widen o s v vs toks r,
+  (map_free s = true \/ doc_ok v = true) ->
   load_tr narrow widen o s v = (toks, r) -> no_err r ->
-  exists c, spec_areqs narrow widen o (v :: vs) (mk_areqs (elem_prog s v)) = ((toks, None, c), vs).
+  exists c, spec_areqs narrow widen o (v :: vs) (mk_areqs (elem_prog o s v)) = ((toks, None, c), vs).
 Proof. exact (fun narrow widen o s => proj1 (progs_ok narrow widen o s)). Qed.
 Print Assumptions T_C01_mp_elem_program.
 
 (* ... and the program issued for a class member named q (present or absent in the document) *)
 Theorem T_C01_mp_member_program : forall narrow widen o s q kvs toks r,
+  (forall x, lookup (key_of_q q) kvs = Some x -> map_free s = true \/ doc_ok x = true) ->
   member_tr narrow widen o s (lookup (key_of_q q) kvs) = (toks, r) -> no_err r ->
-  exists c, spec_reqs narrow widen o kvs (mk_reqs (member_prog s q (lookup (key_of_q q) kvs))) = (toks, None, c).
-Proof. exact (fun narrow widen o s => proj2 (progs_ok narrow widen o s)). Qed.
+  exists c, spec_reqs narrow widen o kvs (mk_reqs (member_prog o s q (lookup (key_of_q q) kvs))) = (toks, None, c).
+Proof. exact (fun narrow widen o s => proj1 (proj2 (progs_ok narrow widen o s))). Qed.
 Print Assumptions T_C01_mp_member_program.
 
-(* the loaded value is determined by those tokens alone: read_off re-reads it *)
+(* ... and the keyed load SerializeMapImpl makes from inside the VisitKeys callback for a mapped value of shape s,
+   under a key q that finds x *)
+Theorem T_C01_mp_mapped_program : forall narrow widen o s q kvs x toks r,
+  lookup (key_of_q q) kvs = Some x -> (map_free s = true \/ doc_ok x = true) ->
+  load_tr narrow widen o s x = (toks, r) -> no_err r ->
+  exists c, spec_vact narrow widen o kvs q (vact_prog o s x) = (toks, None, c).
+Proof. exact (fun narrow widen o s => proj2 (proj2 (progs_ok narrow widen o s))). Qed.
+Print Assumptions T_C01_mp_mapped_program.
+
+(* the whole callback sequence of a std::map on a well-formed object document: key conversion, keys that do not
+   fit passed over (Skip policy), one keyed load per remaining member in document order *)
+Theorem T_C01_mp_map_program : forall narrow widen o ks e kvs toks es,
+  doc_ok (MMap kvs) = true ->
+  entries_tr o ks e (load_tr narrow widen o e) kvs = (toks, es, None) ->
+  exists c, spec_vacts narrow widen o kvs kvs (mk_vacts (map_acts o ks (vact_prog o e) kvs)) = (toks, None, c).
+Proof.
+  intros narrow widen o ks e kvs toks es Hok H.
+  exact (entries_loop narrow widen o ks e kvs (proj2 (proj2 (progs_ok narrow widen o e))) Hok kvs [] eq_refl toks es H).
+Qed.
+Print Assumptions T_C01_mp_map_program.
+
+(* the loaded value is determined by those tokens alone: read_off re-reads it (shapes without std::map: the keys
+   a map is built from are handed to the callback, they are not among the tokens) *)
 Theorem T_C01_mp_read_off : forall narrow widen o s v,
-  no_err (load_spec narrow widen o s v) ->
+  map_free s = true -> no_err (load_spec narrow widen o s v) ->
   read_off s (load_toks narrow widen o s v) = Some (load_spec narrow widen o s v, []).
 Proof. exact read_off_load. Qed.
 Print Assumptions T_C01_mp_read_off.
 
-(* ---- transport to the scope model on the bytes (through T_C03_mp_refines) ---- *)
+(* ---- transport to the scope model on the bytes (through T_C03_mp_refines_outside) ---- *)
 (* any well-formed object document, any class shape, error-free load: the scope MODEL run on the bytes
    with the class's request program answers exactly load_tr's tokens, ends right behind the document,
-   no scope failed to close (flag clear), Finalize() passes *)
+   no scope failed to close (flag clear), Finalize() passes.  If the class holds a std::map somewhere, the
+   document must not have a NaN key (the VisitKeys callback's key is a reference: known finding M01 of C03) *)
 Theorem T_C01_mp_load_class_on_model : forall narrow widen o data kvs rest ms toks r,
   bytes data -> decode data = Some (MMap kvs, rest) -> doc_ok (MMap kvs) = true ->
+  (map_free (SClass ms) = true \/ keys_refl (MMap kvs) = true) ->
   load_tr narrow widen o (SClass ms) (MMap kvs) = (toks, r) -> no_err r ->
-  run_obj_root narrow widen o data (class_prog ms kvs) = Done toks rest false /\
-  load_obj narrow widen o data (class_prog ms kvs) = MpScopeModel.LOk toks rest.
+  run_obj_root narrow widen o data (class_prog o ms kvs) = Done toks rest false /\
+  load_obj narrow widen o data (class_prog o ms kvs) = MpScopeModel.LOk toks rest.
 Proof. exact load_class_on_model. Qed.
 Print Assumptions T_C01_mp_load_class_on_model.
 
 Theorem T_C01_mp_load_vec_on_model : forall narrow widen o data vs rest e toks r,
   bytes data -> decode data = Some (MArr vs, rest) -> doc_ok (MArr vs) = true ->
+  (map_free (SVec e) = true \/ keys_refl (MArr vs) = true) ->
   load_tr narrow widen o (SVec e) (MArr vs) = (toks, r) -> no_err r ->
-  run_arr_root narrow widen o data (vec_prog e vs) = Done toks rest false /\
-  load_arr narrow widen o data (vec_prog e vs) = MpScopeModel.LOk toks rest.
+  run_arr_root narrow widen o data (vec_prog o e vs) = Done toks rest false /\
+  load_arr narrow widen o data (vec_prog o e vs) = MpScopeModel.LOk toks rest.
 Proof. exact load_vec_on_model. Qed.
 Print Assumptions T_C01_mp_load_vec_on_model.
+
+(* a fixed-size array (std::array<e, n>, e[n]) at the root: an error-free load — the document has exactly n
+   elements — issues the program of a sequence container and consumes the same answers; any other count ends in
+   OutOfRange (load_tr; see T_C01_mp_fixed_example) *)
+Theorem T_C01_mp_load_fixed_on_model : forall narrow widen o data vs rest n e toks r,
+  bytes data -> decode data = Some (MArr vs, rest) -> doc_ok (MArr vs) = true ->
+  (map_free (SArr n e) = true \/ keys_refl (MArr vs) = true) ->
+  load_tr narrow widen o (SArr n e) (MArr vs) = (toks, r) -> no_err r ->
+  run_arr_root narrow widen o data (vec_prog o e vs) = Done toks rest false /\
+  load_arr narrow widen o data (vec_prog o e vs) = MpScopeModel.LOk toks rest.
+Proof. exact load_fixed_on_model. Qed.
+Print Assumptions T_C01_mp_load_fixed_on_model.
+
+(* std::vector<bool> at the root: the program and the answers of a sequence container of bool (the loaded value
+   differs: an element that does not load repeats the previous one) *)
+Theorem T_C01_mp_load_vector_bool_on_model : forall narrow widen o data vs rest toks r,
+  bytes data -> decode data = Some (MArr vs, rest) -> doc_ok (MArr vs) = true ->
+  load_tr narrow widen o SVecBool (MArr vs) = (toks, r) -> no_err r ->
+  run_arr_root narrow widen o data (mk_areqs (vec_body bool_prog vs)) = Done toks rest false /\
+  load_arr narrow widen o data (mk_areqs (vec_body bool_prog vs)) = MpScopeModel.LOk toks rest.
+Proof. exact load_vb_on_model. Qed.
+Print Assumptions T_C01_mp_load_vector_bool_on_model.
+
+(* a std::map at the root: the program is VisitKeys with one keyed load per member from inside the callback *)
+Theorem T_C01_mp_load_map_on_model : forall narrow widen o data kvs rest ks e toks r,
+  bytes data -> decode data = Some (MMap kvs, rest) -> doc_ok (MMap kvs) = true -> keys_refl (MMap kvs) = true ->
+  load_tr narrow widen o (SMap ks e) (MMap kvs) = (toks, r) -> no_err r ->
+  run_obj_root narrow widen o data (map_prog o ks e kvs) = Done toks rest false /\
+  load_obj narrow widen o data (map_prog o ks e kvs) = MpScopeModel.LOk toks rest.
+Proof. exact load_map_on_model. Qed.
+Print Assumptions T_C01_mp_load_map_on_model.
 
 (* save then load, scope-model form: the history run on the saved bytes b with the MODEL gives the tokens from
    which the saved tree is read off, ends at the end of b, close flag clear *)
@@ -89,17 +156,38 @@ Theorem T_C01_mp_load_save_on_model : forall narrow widen o kvs ms b,
   has_shape (TObj kvs) (SClass ms) = true -> wf_tv (TObj kvs) -> doc_ok (abs (TObj kvs)) = true ->
   save (TObj kvs) = Some b -> bytes b ->
   exists toks, load_tr narrow widen o (SClass ms) (abs (TObj kvs)) = (toks, LOk (TObj kvs)) /\
-    run_obj_root narrow widen o b (class_prog ms (map absp kvs)) = Done toks [] false /\
-    load_obj narrow widen o b (class_prog ms (map absp kvs)) = MpScopeModel.LOk toks [].
+    run_obj_root narrow widen o b (class_prog o ms (map absp kvs)) = Done toks [] false /\
+    load_obj narrow widen o b (class_prog o ms (map absp kvs)) = MpScopeModel.LOk toks [].
 Proof. exact load_save_class_on_model. Qed.
 Print Assumptions T_C01_mp_load_save_on_model.
+
+Theorem T_C01_mp_load_save_map_on_model : forall narrow widen o kvs ks e b,
+  has_shape (TObj kvs) (SMap ks e) = true -> wf_tv (TObj kvs) -> doc_ok (abs (TObj kvs)) = true ->
+  save (TObj kvs) = Some b -> bytes b ->
+  exists toks, load_tr narrow widen o (SMap ks e) (abs (TObj kvs)) = (toks, LOk (TObj kvs)) /\
+    run_obj_root narrow widen o b (map_prog o ks e (map absp kvs)) = Done toks [] false /\
+    load_obj narrow widen o b (map_prog o ks e (map absp kvs)) = MpScopeModel.LOk toks [].
+Proof. exact load_save_map_on_model. Qed.
+Print Assumptions T_C01_mp_load_save_map_on_model.
+
+(* a value of a static shape never has a NaN key, so the restriction of M01 does not touch save-then-load *)
+Theorem T_C01_mp_shape_keys_refl : forall v s, has_shape v s = true -> keys_refl (abs v) = true.
+Proof. exact has_shape_keys_refl. Qed.
+Print Assumptions T_C01_mp_shape_keys_refl.
+
+(* programs of shapes without std::map never load from inside a VisitKeys callback *)
+Theorem T_C01_mp_programs_each_free : forall o s, map_free s = true ->
+  (forall v, each_free_areqs (mk_areqs (elem_prog o s v)) = true) /\
+  (forall q ov, each_free_reqs (mk_reqs (member_prog o s q ov)) = true).
+Proof. exact progs_each_free. Qed.
+Print Assumptions T_C01_mp_programs_each_free.
 
 Theorem T_C01_mp_load_save_vec_on_model : forall narrow widen o l e b,
   has_shape (TArr l) (SVec e) = true -> wf_tv (TArr l) -> doc_ok (abs (TArr l)) = true ->
   save (TArr l) = Some b -> bytes b ->
   exists toks, load_tr narrow widen o (SVec e) (abs (TArr l)) = (toks, LOk (TArr l)) /\
-    run_arr_root narrow widen o b (vec_prog e (map abs l)) = Done toks [] false /\
-    load_arr narrow widen o b (vec_prog e (map abs l)) = MpScopeModel.LOk toks [].
+    run_arr_root narrow widen o b (vec_prog o e (map abs l)) = Done toks [] false /\
+    load_arr narrow widen o b (vec_prog o e (map abs l)) = MpScopeModel.LOk toks [].
 Proof. exact load_save_vec_on_model. Qed.
 Print Assumptions T_C01_mp_load_save_vec_on_model.
 
@@ -139,12 +227,45 @@ Example T_C01_mp_example_other_document :
 Proof. exact ex_tree_loads2. Qed.
 Print Assumptions T_C01_mp_example_other_document.
 
+(* ---- std::map: class { m : map<int8_t, vector<string>>; n : map<string, int32_t> } ---- *)
+Example T_C01_mp_map_example :
+  has_shape ex_map_tree ex_map_shape = true /\ wf_tv ex_map_tree /\ doc_ok (abs ex_map_tree) = true /\
+  save ex_map_tree = Some ex_map_bytes /\ load_bytes no_narrow id_widen skip_all ex_map_shape ex_map_bytes = LOk ex_map_tree.
+Proof. exact (conj ex_map_shape_ok (conj ex_map_wf (conj ex_map_keys (conj ex_map_save ex_map_loads)))). Qed.
+Print Assumptions T_C01_mp_map_example.
+
+(* { "n": {"ab":3, "":1}, "m": {5:[], 300:["x"], -3:["a"]} }: keys in another order are sorted by the maps; 300 does
+   not fit int8_t: passed over under Skip, Overflow under Throw *)
+Example T_C01_mp_map_example_other_document :
+  load_bytes no_narrow id_widen skip_all ex_map_shape ex_map_bytes2 =
+    LOk (TObj [(TStr [0x6D], TObj [(TInt IS8 (-3), TArr [TStr [0x61]]); (TInt IS8 5, TArr [])]);
+               (TStr [0x6E], TObj [(TStr [], TInt IS32 1); (TStr [0x61; 0x62], TInt IS32 3)])]) /\
+  load_bytes no_narrow id_widen (mkOpts PThrow PThrow) ex_map_shape ex_map_bytes2 = LErr (SE EOverflow).
+Proof. exact ex_map_loads2. Qed.
+Print Assumptions T_C01_mp_map_example_other_document.
+
+(* ---- fixed-size array and vector<bool>: class { a : std::array<int16_t, 3>; b : std::vector<bool> } ---- *)
+(* { "a": [1, "x", 3], "b": [true, "x", false, nil] } under Skip: the array element that does not load keeps its
+   value, the vector<bool> element that does not load REPEATS THE PREVIOUS ONE ([true, true, false, false]);
+   { "a": [1, 2] }: OutOfRange, whatever the policy *)
+Example T_C01_mp_fixed_example :
+  load_bytes no_narrow id_widen skip_all ex_fix_shape ex_fix_bytes =
+    LOk (TObj [(TStr [0x61], TArr [TInt IS16 1; TInt IS16 0; TInt IS16 3]); (TStr [0x62], TArr [TBool true; TBool true; TBool false; TBool false])]) /\
+  load_bytes no_narrow id_widen skip_all ex_fix_shape ex_fix_bytes2 = LErr SERange.
+Proof. exact ex_fix_loads. Qed.
+Print Assumptions T_C01_mp_fixed_example.
+
 (* NOT PROVED / NOT MODELLED:
-   - std::map<K,V> targets: SerializeMapImpl loads every value from INSIDE the VisitKeys callback
-     (FindValueByKey on the key that is current); the history language has VisitKeys as key enumeration only,
-     so neither history_of nor the transport exists for maps; TObj with integer keys is outside has_shape;
-   - std::vector<bool> (its own loop: an element that is not loaded keeps the PREVIOUS element's value),
-     fixed-size arrays / tuples (SerializeFixedSizeArray throws on a count mismatch), enums, validation;
+   - std::map: MapLoadMode::OnlyExistKeys / UpdateKeys (load_tr has no initial target content; into a
+     value-initialised map UpdateKeys = Clean and OnlyExistKeys loads nothing); archive keys of another class
+     than the map's key type (text <-> number conversions, float / double / timestamp keys) and archive keys that
+     convert to the same K (the load into the element try_emplace found): load_tr is total but claims nothing
+     there, `modelled` (MpLoadModel.v) delimits it and the correspondence check skips those documents;
+     read_off for maps (the keys are not among the tokens); std::unordered_map (iteration order), multimap;
+   - std::tuple / std::pair: SerializeArray(tuple) reads its components without IsEnd() and CATCHES the OutOfRange
+     of a too short array — or of anything nested that raised OutOfRange, e.g. a std::array component with another
+     count — and, under MismatchedTypesPolicy::Skip, goes on: an error in the middle of a load that ends well, which
+     neither the history language nor the error-free theorems can express; enums, validation;
    - loads that end in an exception: load_tr carries the policies and the error, but the program / transport
      theorems assume an error-free load (as T_C03_mp_refines does);
    - a scalar / string / byte container at the ROOT of the document on the scope model (the root scope's own
